@@ -947,7 +947,7 @@ func (c *Ctx) factsAt(fn *ssa.Function, blk *ssa.BasicBlock) []Affine {
 		if callee == nil || !c.P.InLib(callee) {
 			continue
 		}
-		out = append(out, c.calleeFactsMode(callee, ir.CallArgs(call), 0, em)...)
+		out = append(out, c.calleeFactsAtCall(callee, call, em)...)
 	}
 	if parent := fn.Parent(); parent != nil {
 		for _, f := range withAnon(topFn(fn)) {
@@ -956,7 +956,7 @@ func (c *Ctx) factsAt(fn *ssa.Function, blk *ssa.BasicBlock) []Affine {
 					for _, ce := range ir.DominatingConds(f, mc.Block()) {
 						if call, em := e.observe(f, ce); call != nil {
 							if callee := ir.Callee(call); callee != nil && c.P.InLib(callee) {
-								out = append(out, c.calleeFactsMode(callee, ir.CallArgs(call), 0, em)...)
+								out = append(out, c.calleeFactsAtCall(callee, call, em)...)
 							}
 						}
 					}
@@ -972,7 +972,144 @@ func (c *Ctx) calleeFacts(callee *ssa.Function, args []ssa.Value, depth int) []A
 	return c.calleeFactsMode(callee, args, depth, false)
 }
 
+// calleeFactsAtCall: calleeFacts for one call, with facts about a struct the
+// callee builds locally and returns (by value or by address) restated over the
+// place the caller keeps that result in.
+func (c *Ctx) calleeFactsAtCall(callee *ssa.Function, call *ssa.Call, errMode bool) []Affine {
+	return c.calleeFactsCall(callee, ir.CallArgs(call), 0, errMode, call)
+}
+
 func (c *Ctx) calleeFactsMode(callee *ssa.Function, args []ssa.Value, depth int, errMode bool) []Affine {
+	return c.calleeFactsCall(callee, args, depth, errMode, nil)
+}
+
+// resultBases maps the callee-side name of each returned local struct to the
+// caller-side name of where the result of call lives; blocked lists, per caller
+// base, the fields the caller assigns itself.
+func resultBases(callee *ssa.Function, acc []*ssa.Return, call *ssa.Call) (map[string]string, map[string]map[string]bool) {
+	bases := map[string]string{}
+	blocked := map[string]map[string]bool{}
+	if call == nil || len(acc) == 0 || call.Referrers() == nil {
+		return bases, blocked
+	}
+	for k := range acc[0].Results {
+		var a *ssa.Alloc
+		byValue := false
+		same := true
+		for _, r := range acc {
+			var ra *ssa.Alloc
+			bv := false
+			switch x := r.Results[k].(type) {
+			case *ssa.UnOp:
+				if x.Op == token.MUL {
+					ra, _ = x.X.(*ssa.Alloc)
+					bv = true
+				}
+			case *ssa.Alloc:
+				ra = x
+			}
+			if ra == nil || (a != nil && ra != a) {
+				same = false
+				break
+			}
+			a, byValue = ra, bv
+		}
+		if !same || a == nil {
+			continue
+		}
+		if _, isStruct := a.Type().Underlying().(*types.Pointer).Elem().Underlying().(*types.Struct); !isStruct {
+			continue
+		}
+		// the caller-side value of result k
+		var rv ssa.Value = call
+		if len(acc[0].Results) > 1 {
+			rv = nil
+			for _, ref := range *call.Referrers() {
+				if ex, ok := ref.(*ssa.Extract); ok && ex.Index == k {
+					rv = ex
+				}
+			}
+		}
+		if rv == nil || rv.Referrers() == nil {
+			continue
+		}
+		calleeBase := ir.AddrPath(a)
+		if !byValue {
+			bases[calleeBase] = ir.AddrPath(rv)
+			continue
+		}
+		for _, ref := range *rv.Referrers() {
+			st, ok := ref.(*ssa.Store)
+			if !ok || st.Val != rv || st.Block() != call.Block() {
+				continue
+			}
+			b, ok := st.Addr.(*ssa.Alloc)
+			if !ok {
+				continue
+			}
+			// the caller's own assignments to fields of the copy end the callee's facts about them
+			whole := 0
+			fields := map[string]bool{}
+			for _, br := range *b.Referrers() {
+				switch y := br.(type) {
+				case *ssa.Store:
+					if y.Addr == ssa.Value(b) {
+						whole++
+					}
+				case *ssa.FieldAddr:
+					for _, fr := range *y.Referrers() {
+						if fs, isSt := fr.(*ssa.Store); isSt && fs.Addr == ssa.Value(y) {
+							fields[ir.FieldOf(y).Name()] = true
+						}
+					}
+				}
+			}
+			if whole != 1 {
+				continue
+			}
+			bases[calleeBase] = ir.AddrPath(b)
+			blocked[ir.AddrPath(b)] = fields
+		}
+	}
+	return bases, blocked
+}
+
+func substResultBases(f Affine, bases map[string]string, blocked map[string]map[string]bool) Affine {
+	if len(bases) == 0 {
+		return f
+	}
+	out := newAffine()
+	out.K = f.K
+	for sym, coeff := range f.T {
+		ns := sym
+		for from, to := range bases {
+			idx := strings.Index(sym, from)
+			if idx < 0 {
+				continue
+			}
+			end := idx + len(from)
+			if end < len(sym) && sym[end] != '.' && sym[end] != ')' && sym[end] != '[' {
+				continue
+			}
+			// a field the caller reassigns keeps its callee-side (unusable) name
+			rest := strings.TrimPrefix(sym[end:], ".")
+			first := rest
+			if i := strings.IndexAny(rest, ".)["); i >= 0 {
+				first = rest[:i]
+			}
+			if blocked[to][first] {
+				continue
+			}
+			ns = sym[:idx] + to + sym[end:]
+			break
+		}
+		out.T[ns] += coeff
+		out.Sym[ns] = f.Sym[sym]
+	}
+	return out
+}
+
+func (c *Ctx) calleeFactsCall(callee *ssa.Function, args []ssa.Value, depth int, errMode bool, call *ssa.Call) []Affine {
 	if depth > 3 {
 		return nil
 	}
@@ -998,9 +1135,10 @@ func (c *Ctx) calleeFactsMode(callee *ssa.Function, args []ssa.Value, depth int,
 		}
 		common = keep
 	}
+	bases, blocked := resultBases(callee, acc, call)
 	var out []Affine
 	for _, f := range common {
-		if g, ok := substParams(f, callee, args); ok {
+		if g, ok := substParams(substResultBases(f, bases, blocked), callee, args); ok {
 			out = append(out, g)
 		}
 	}
